@@ -102,6 +102,8 @@ pub enum Event {
     Deliver(LinkId, u8),
     /// deliver the head response of a link to the leader
     DeliverResp(LinkId),
+    /// the head responses of TWO links reach the leader before it takes its next turn
+    DeliverResp2(LinkId, LinkId),
     /// the stream breaks: responses in flight are lost, the leader's worker reconnects
     Break(LinkId),
     /// drop the head request of a (broken) link
@@ -552,6 +554,9 @@ pub struct Cluster {
     pub armed_timers: BTreeSet<u32>,
     /// membership view of a node at the moment it crashed / stopped (C28)
     pub membership_at_stop: BTreeMap<u32, Vec<(u32, i32, i32)>>,
+    /// virtual time at which the leader last received a successful AppendEntries response of a
+    /// follower: (leader, follower) -> ms
+    pub last_ack_ms: BTreeMap<(u32, u32), u64>,
     pub t0: tokio::time::Instant,
     /// the path ran into a schedule the harness cannot represent (e.g. a voter whose own
     /// election timer is due while it is asked for its vote): not expanded, not a verdict
@@ -611,10 +616,13 @@ impl Cluster {
             history: vec![],
             armed_timers: BTreeSet::new(),
             membership_at_stop: BTreeMap::new(),
+            last_ack_ms: BTreeMap::new(),
             t0: tokio::time::Instant::now(),
             stuck: None,
         };
         d_engine_core::verif_clock::set(Some(0));
+        // nothing of an earlier cluster on this thread may leak into this one
+        let _ = d_engine_core::verif_take_leader_notifications();
         if opts.snapshot_enable {
             // snapshot archives are real files: nothing of an earlier history may be left over
             if let Ok(rd) = std::fs::read_dir(&c.scratch) {
@@ -858,7 +866,15 @@ impl Cluster {
                     .flat_map(|l| l.in_flight.iter().cloned())
                     .collect()
             };
+            // every value the nodes published on their leader-change watches during this turn
+            for (n, val) in d_engine_core::verif_take_leader_notifications() {
+                self.oracle.on_notification(n, val);
+            }
             self.oracle.observe(self.events_applied, &v, &reqs, &self.observers[&id]);
+            if v.role == RoleKind::Leader {
+                let now = self.clock_ms;
+                self.oracle.leader_seen_ms.entry((v.id, v.term)).or_insert(now);
+            }
             self.last_views.insert(id, v);
         }
     }
@@ -1157,6 +1173,7 @@ impl Cluster {
                 // target down: the request is lost
             }
             Event::DeliverResp(link) => {
+                let mut acked = false;
                 let ok = {
                     let mut g = self.net.0.lock().unwrap();
                     let l = g
@@ -1165,10 +1182,41 @@ impl Cluster {
                         .find(|l| l.from == link.from && l.to == link.to && l.generation == link.generation)
                         .ok_or("no such link")?;
                     let r = l.responses.pop_front().ok_or("no response queued")?;
+                    if r.is_success() {
+                        acked = true;
+                    }
                     l.resp_tx.send(Ok(r)).is_ok()
                 };
+                if acked {
+                    self.last_ack_ms.insert((link.from, link.to), self.clock_ms);
+                }
                 if ok {
                     self.settle(link.from).await?;
+                }
+            }
+            Event::DeliverResp2(a, b) => {
+                let mut any = false;
+                for link in [a, b] {
+                    let mut g = self.net.0.lock().unwrap();
+                    let l = g
+                        .links
+                        .iter_mut()
+                        .find(|l| l.from == link.from && l.to == link.to && l.generation == link.generation)
+                        .ok_or("no such link")?;
+                    let r = l.responses.pop_front().ok_or("no response queued")?;
+                    if r.is_success() {
+                        let now = self.clock_ms;
+                        self.last_ack_ms.insert((link.from, link.to), now);
+                    }
+                    any |= l.resp_tx.send(Ok(r)).is_ok();
+                }
+                if a.from != b.from {
+                    return Err("responses for two different leaders".into());
+                }
+                if any {
+                    // both are in the leader's internal queue before its turn starts
+                    quiesce().await;
+                    self.settle(a.from).await?;
                 }
             }
             Event::Break(link) => {
